@@ -47,7 +47,7 @@ type TypeData struct {
 }
 
 // Parser holds assign types and let(variable) definitions in hierarchical order, messages generated while parsing
-// and whether a root was found or not
+// and whether a root was found or not. AssignTypes, LetTypes and Messages describe the most recent call of Parse.
 type Parser struct {
 	AssignTypes         map[string]TypeData
 	LetTypes            map[string]TypeData
@@ -234,6 +234,13 @@ func fileNameToIndex(filename string) retrievedListIndex {
 
 // Parse parses a sysl definition from an retriever interface
 func (p *Parser) Parse(resource string, reader reader.Reader) (*sysl.Module, error) {
+	// What view inference records belongs to one compilation: a Parser that is used again starts without the assign
+	// types, let scope keys and messages of the compilation before, so that the same source gives the same module.
+	// GetAssigns, GetLets and GetMessages describe the last compilation.
+	p.AssignTypes = map[string]TypeData{}
+	p.LetTypes = map[string]TypeData{}
+	p.Messages = map[string][]msg.Msg{}
+
 	listener := NewTreeShapeListener()
 	listener.lint()
 
